@@ -328,6 +328,10 @@ func (s *Stream) close() error {
 			}
 			return s.session.wakeUpPeer()
 		}
+	} else {
+		// the state changed under us (e.g. the peer's close just half-closed the stream): retry,
+		// otherwise Close would return nil and leave the stream open with its buffers held.
+		return s.close()
 	}
 	return nil
 }
